@@ -112,7 +112,7 @@ Definition spec_code (udp : bool) (off : N) (m : state) (inp : list buf) (tw : l
   else if negb (floweq_ok inp tw out) then
     (if floweq_gen true false inp tw out then 38
      else if floweq_gen false true inp tw out then (if has_prepend m then 37 else 36) else 30)
-  else if negb (csum_kept_ok inp tw out) then 39
+  else if negb (csum_kept_ok inp tw out) then (if csum_kept_gen false inp tw out then 35 else 39)
   else if negb (udp_order_ok inp tw out) then
     (if udp_order_gen keep_nonempty inp tw out then 41
      else if udp_order_gen keep_eligible inp tw out then 42 else 40)
@@ -135,7 +135,7 @@ Definition write_code (m : state) (inp : list buf) (outs : list buf) : N :=
   else if negb (floweq_ok inp tw outs) then
     (if floweq_gen true false inp tw outs then 38
      else if floweq_gen false true inp tw outs then (if has_prepend m then 37 else 36) else 30)
-  else if negb (csum_kept_ok inp tw outs) then 39
+  else if negb (csum_kept_ok inp tw outs) then (if csum_kept_gen false inp tw outs then 35 else 39)
   else if negb (udp_order_ok inp tw outs) then
     (if udp_order_gen keep_nonempty inp tw outs then 41
      else if udp_order_gen keep_eligible inp tw outs then 42 else 40)
